@@ -13,14 +13,14 @@
 (* step, and every document must equal the fresh one.                         *)
 EXTENDS Naturals, Sequences, FiniteSets, TLC, TLCExt, Json, IOUtils
 
-DH == INSTANCE DecodeHistory WITH Mods <- {"m1", "m2"}, Absent <- {"a1"}, Variant <- "repaired",
+DH == INSTANCE DecodeHistory WITH Mods <- {"m1", "m2"}, Absent <- {"a1"}, Broken <- {"b1"}, Variant <- "repaired",
                                   MaxHistory <- 1000, cache <- <<>>, hist <- 0,
                                   last <- [cache |-> "ud", mod |-> "m1", beh |-> "ok", plugins |-> TRUE], lastResult <- ""
 
 Recs == ndJsonDeserialize(IOEnv.TRACE_FILE)
 VARIABLE i
 
-Names == {"m1", "m2", "a1"}
+Names == {"m1", "m2", "a1", "b1"}
 Cache0 == [c \in DH!Caches |-> [n \in Names |-> "unseen"]]
 Proj(c) == [k \in DH!Caches |-> [n \in Names |-> c[k][n]]]
 
